@@ -37,7 +37,9 @@ Layouts == <<
   \* reverse-strand genes whose frame does not start at their first base: codon_start 3 / 2, single and joined
   << Feat("g1", "CDS", TRUE, 1, <<<<4, 15>>>>, 1, 0), Feat("g2", "CDS", TRUE, -1, <<<<19, 29>>>>, 3, 0) >>,
   << Feat("g1", "CDS", TRUE, 1, <<<<2, 15>>>>, 3, 0), Feat("g2", "CDS", TRUE, -1, <<<<25, 28>>, <<19, 24>>>>, 2, 0) >>,
-  << Feat("g2", "CDS", TRUE, -1, <<<<25, 29>>, <<19, 24>>>>, 3, 1) >>
+  << Feat("g2", "CDS", TRUE, -1, <<<<25, 29>>, <<19, 24>>>>, 3, 1) >>,
+  \* two CDS of one gene (same /gene, same Name), the second inside the span of the first but read differently (pp1ab / pp1a in RefSeq)
+  << Feat("g1", "CDS", TRUE, 1, <<<<4, 9>>, <<13, 15>>>>, 1, 0), Feat("g1", "CDS", TRUE, 1, <<<<4, 15>>>>, 1, 0), Feat("g2", "CDS", TRUE, -1, <<<<19, 30>>>>, 1, 0) >>
 >>
 GffOnly(k) == k = 7          \* an unnamed CDS has no GenBank form
 
@@ -61,7 +63,7 @@ Doubles == << Change2(7, 8, "A", "A"), Change2(8, 9, "T", "C"), Change2(7, 9, "C
               Change2(13, 14, "C", "-"), Change2(1, 2, "-", "-"), Change2(29, 30, "-", "-"), Change2(12, 13, "G", "G") >>
 Rows(g) == [k \in 1..Len(Singles) |-> QRow(g, Singles[k], IF k % 7 = 0 THEN "A" ELSE "-")]
            \o [k \in 1..Len(Doubles) |-> QRow(g, Doubles[k], IF k % 2 = 0 THEN "C" ELSE "-")]
-           \o << QRow(g, Genome, "G"), QRow(g, Genome, "-") >>
+           \o << QRow(g, Genome, "G"), QRow(g, Genome, "-"), QRow(g, Change(8, "T"), "-"), QRow(g, Change2(8, 9, "T", "A"), "-"), QRow(g, Change(8, "T"), "-") >>
 Run(cmd, anno, app, s, e, agg, thr, t, stdin) == [cmd |-> cmd, anno |-> anno, append |-> app, s |-> s, e |-> e, agg |-> agg, thr |-> thr, t |-> t, stdin |-> stdin]
 RunsFor(k) ==
   (IF GffOnly(k) THEN <<>> ELSE
